@@ -10,7 +10,7 @@ RULE = (
     "For both roles the byte transcript of a well-behaved raw peer (association negotiation, C-STORE command set, data set, release) "
     "is cut at a generated offset (uniform + biased to PDU boundaries +-1 and header bytes); after the cut the peer either stalls with the "
     "connection open, dribbles the rest one byte per d < network_timeout, or (after complete PDUs) simply never answers. Schedules: "
-    f"fifo/random/pct + preemptions. Timeouts: {TO}, the connection timeout also None (the library default). Oracle: by virtual time {BOUND} s (connection + acse + dimse + 2 x network + ARTIM + 3 s margin - "
+    f"fifo/random/pct + preemptions. Timeouts: {TO}, the connection timeout also None (the library default); in half of the cases the wall clock is stepped by an hour (either direction) at up to three generated scheduler steps. Oracle: by virtual time {BOUND} s (connection + acse + dimse + 2 x network + ARTIM + 3 s margin - "
     "deliberately weaker than 'the relevant one') every pynetdicom thread is finished, every user call has returned and the local socket is closed; "
     "a thread blocked with no deadline at all is reported as 'blocks forever'. Non-trivial = cut strictly inside a PDU (or dribbling)."
 )
@@ -80,7 +80,7 @@ def build(case):
             script.append(["sleep", 200])
         break
     script.append(["close"])
-    sched = {"policy": case["policy"], "seed": case["seed"], "preemptions": case["pre"]}
+    sched = {"policy": case["policy"], "seed": case["seed"], "preemptions": case["pre"], "nudges": case.get("nudges", [])}
     TO = dict(globals()["TO"], connection=case.get("conn", 2))  # connection timeout 2 s or None (the library default)
     if role == "acceptor":
         return {"timeouts": TO, "max_steps": 40000, "time_limit": BOUND,
@@ -97,7 +97,7 @@ def check_stall(ctx, case):
     phase, data, _ = tr[case["phase"]]
     cut = case["cut"]
     inside = 0 < cut < len(data) and not _at_pdu_boundary(data, cut)
-    classes = [role, f"{role[:3]}:{phase}", case["mode"], case["policy"], "cut-inside-pdu" if inside else "cut-at-boundary", f"connection-timeout={case.get('conn', 2)}"]
+    classes = [role, f"{role[:3]}:{phase}", case["mode"], case["policy"], "cut-inside-pdu" if inside else "cut-at-boundary", f"connection-timeout={case.get('conn', 2)}"] + sorted({"clock-step:" + k for _, k in case.get("nudges", [])})
     sc = build(case)
     out = SC.run(sc)
     rep = out["report"]
@@ -181,7 +181,9 @@ def strategy(ctx):
             cut = n - draw(st.integers(2, 40))  # keep dribbles short: the point is only that each gap is < network timeout
         return {"role": role, "phase": phase, "cut": cut, "mode": mode, "d": d, "conn": draw(st.sampled_from([2, None])),
                 "policy": draw(st.sampled_from(["fifo", "random", "pct"])), "seed": draw(st.integers(0, 10**6)),
-                "pre": [list(p) for p in draw(st.lists(st.tuples(st.integers(0, 3000), st.integers(0, 5)), max_size=4))]}
+                "pre": [list(p) for p in draw(st.lists(st.tuples(st.integers(0, 3000), st.integers(0, 5)), max_size=4))],
+                # wall-clock steps of one hour in either direction while the timeouts are pending: none of them may depend on the wall clock
+                "nudges": [list(n) for n in draw(st.one_of(st.just([]), st.lists(st.tuples(st.integers(0, 400), st.sampled_from(["wall-", "wall+"])), min_size=1, max_size=3)))]}
 
     return case()
 
